@@ -39,6 +39,10 @@ func mkHeader(parent common.Hash, number uint, primary bool, salt uint64) *types
 }
 
 func runTree(k *kernel.K) {
+	if k.Prop == "C15" && k.Bool(1, 5, "concurrent-callers") {
+		runTreeConc(k)
+		return
+	}
 	nNodes := k.Range(1, 3, "nodes")
 	steps := k.Range(8, 70, "steps")
 	maxDepth := k.Range(3, 12, "maxdepth")
